@@ -31,7 +31,7 @@ const (
 	sB  = uint32(303986753)
 )
 
-var classes = []string{"valid-A", "valid-B", "duplicate-A", "wrong-length", "wrong-protocol", "wrong-function", "non-bcd-date", "calendar-invalid-date"}
+var classes = []string{"valid-A", "valid-B", "duplicate-A", "len-63", "len-65", "len-1100", "wrong-protocol", "wrong-function", "non-bcd-date", "calendar-invalid-date"}
 var times = []time.Duration{T / 10, T / 2, T - eps, T, T + eps}
 
 var devOp = spec.OpByName("GetDevices")
@@ -51,8 +51,12 @@ func reply(class string, k int) []byte {
 	d := spec.EncodeReply(devOp, serial, vals)
 	dateOff := 28
 	switch class {
-	case "wrong-length":
+	case "len-63":
 		d = d[:63]
+	case "len-65": // a well-formed reply followed by one more byte: too long, whatever its first 64 bytes say
+		d = append(d, 0x00)
+	case "len-1100":
+		d = append(d, make([]byte, 1100-64)...)
 	case "wrong-protocol":
 		d[0] = 0x18
 	case "wrong-function":
@@ -308,7 +312,7 @@ func main() {
 	if r.Worker == "" && r.Replay == "" {
 		vs.Run(nil, nil, vs.Options{}, func() { mappingSweep(r) })
 	}
-	r.Rule("every sequence of 0..2 datagrams over 8 classes x 5 arrival times (0.1T, 0.5T, T-e, T, T+e), every 3-datagram class sequence at two fixed time patterns (thorough: also simultaneous arrivals and 4 datagrams), broadcast address unset / port 60005, each under all interleavings of the reader goroutine and the sleeping caller within the preemption bound; plus a driver-level sweep of one reply through the result mapping (every byte value of address/mask/gateway/MAC/version/serial, all 65536 version, year and month-day byte pairs) x {unnamed + default port, named + port 60005}. distinct = distinct (entries, datagrams) labels")
+	r.Rule("every sequence of 0..2 datagrams over 10 classes (valid A/B, duplicate, 63 bytes, 65 and 1100 bytes with a well-formed 64-byte prefix, wrong protocol id, wrong function code, non-BCD and calendar-invalid date) x 5 arrival times (0.1T, 0.5T, T-e, T, T+e), every 3-datagram class sequence at two fixed time patterns (thorough: also simultaneous arrivals and 4 datagrams), broadcast address unset / port 60005, each under all interleavings of the reader goroutine and the sleeping caller within the preemption bound; plus a driver-level sweep of one reply through the result mapping (every byte value of address/mask/gateway/MAC/version/serial, all 65536 version, year and month-day byte pairs) x {unnamed + default port, named + port 60005}. distinct = distinct (entries, datagrams) labels")
 	r.Assume("a reply with a calendar-invalid BCD date may be dropped or reported with the zero date (the property lists only non-BCD dates as malformed)")
 	r.Finish()
 }
